@@ -382,3 +382,6 @@ import pipeline as _pl
 LEAN_MODULES = LEAN_MODULES + [m for m in _pl.LEAN_MODULES2 if m not in LEAN_MODULES]
 THEOREMS = THEOREMS + [t for t in _pl.THEOREMS2.get(ID, []) if t not in THEOREMS]
 GEN = GEN + [g for g in _pl.GEN if g not in GEN]
+# Props/PipelineArr.lean: comprehensions, median, range on every numeric kind, quantity aggregates
+LEAN_MODULES = LEAN_MODULES + [m for m in _pl.LEAN_MODULES3 if m not in LEAN_MODULES]
+THEOREMS = THEOREMS + [t for t in _pl.THEOREMS3.get(ID, []) if t not in THEOREMS]
